@@ -161,3 +161,15 @@ PROPS["C04"] = {
     "level_text": "Machine-checked Lean 4 theorems, for every world and environment: performUpdateCheck_marks (the announcements of a check are CheckingForUpdates followed by exactly pathMarks of the path taken, where the path is a function of the request-phase outcome, the parse result and the plan / policy / installer answers) with the iff-clauses error_iff, noUpdate_iff, deferred_iff, installing_iff, installationError_iff, response_iff, insterr_per_failed + failedMessages_spec read off it; attemptLoop_marks (ErrorCheckingForUpdate exactly when the attempt loop ends without a response, over all retry sequences); handleOutcome_ok_iff (a body reaches the parser only from an authenticated 2xx exchange); startUpdateCheck_evs (first event CheckingForUpdates, last three = final schedule, final protocol state, exactly one result; nothing in between is a result / schedule / Idle / WaitingForReboot); performUpdateCheck_result with alignResults_spec, installResponses_ids/actions, makeAppResponses_ids (the result lists the response's apps in order, offered apps get the installer's results in order, the rest NoUpdate; reboot pending iff no app failed and the policy says so); afterCheck_marks / afterCheck_waiting (Idle follows every check, WaitingForReboot in between iff a reboot is pending, nothing else announced during the reboot wait). Tied to state_machine.rs by the per-unit differential run of the real StateMachine.",
     "level_note": "Trusted: Lean kernel; the hand-written state-machine model; harness (scripted environment, executor) and diff. Histories are covered because every unit of the correspondence starts from the state the real machine reached and the theorems hold for every start state.",
 }
+
+PROPS["C05"] = {
+    "lean_modules": ["Omaha.Props.C05"],
+    "streams": sm_stream([[r"P allowed", ["opts=", "->", "ok", "toosoon", "throttled", "denied"]], r"P canstart", r"P rebootallowed", r"P rebootneeded",
+                          [r"H ", ["src=", "->"], r"uc=[^|]*"], r"I ", [r"Z ", []]]),
+    "rule": SM_RULE + "; projection: every policy question with its options and answer (check allowed, update can start, reboot needed, reboot allowed), every request reduced to its kind, install source (checked against the interactivity header by the harness) and per-app update-check flags, every installer call (plan with its parameters, install, reboot), and whether the machine started at all",
+    "trusted_extra": SM_TRUSTED,
+    "assumptions": ["oneshot_check is an embedder-commanded single check with default parameters: the consent clause is about start(); the install and parameter clauses hold for both entry points",
+                    "pings sent while waiting to reboot belong to the unit whose allowed check led to the pending reboot"],
+    "level_text": "Machine-checked Lean 4 theorems: invalid_apps_inert / valid_apps_start / valid_iff (an empty id or version 0 anywhere means run does nothing at all); check_requests_carry_params (every request of a check — each attempt incl. retries, each event report — carries the check's install source and, wherever an update check is present, its flags; via the builder invariant Canon carried through every phase) and attempts_carry_flags (every attempt lists an update check with the policy's flags for every entry), run_check_uses_policy_params; negative_decision_inert, before_decision_inert, runUnit_negative_inert (nothing but timing questions, timers, the decision and replies happens before or without a positive decision: no request, plan, install or reboot); updatePhase_gates with install_iff, install_after_ok, rebootNeeded_iff (plan, then the policy's decision, then the install iff the decision was Ok, then the reboot-needed question iff no app failed — an exact decision table over all scripts); rebootLoop_true_last / rebootWait_true_last / waitForReboot_reboot (the reboot call happens iff the wait ended with the policy's most recent answer yes, directly after it) and afterCheck_no_reboot. Tied to state_machine.rs by the per-unit differential run.",
+    "level_note": "Trusted: Lean kernel; the hand-written state-machine model; harness and diff. That the interactivity header agrees with the install source is checked on every request by the harness (a mismatch is rendered into the trace line).",
+}
